@@ -161,7 +161,7 @@ func c20wExec(t *testing.T, r *kit.Run) func(wProg) kit.Outcome {
 		if obs.reloads > 0 {
 			o.Classes = append(o.Classes, "reloaded")
 		}
-		if fail != "" {
+		if fail != "" && res.Viol == nil {
 			o.Skip = true
 			fmt.Println("C20 bubble failure (not judged here):", firstLine(fail))
 			return o
